@@ -3,15 +3,18 @@ C03 — PDU encode/decode round trip for every message type and field value.
 PARTIAL: command_length is proved for all fifteen classes and every field assignment; the
 header and the round trip are proved for the body-less classes, for submit_sm_resp /
 deliver_sm_resp, for the three bind requests and the three bind responses (13 of the 15 classes);
-for submit_sm / deliver_sm it is proved for messages without optional parameters whose text travels in
-short_message (`sm_round_trip_short`, codec and time round trips as explicit facts; `sm_round_trip_gsm`
-with none left; `sm_round_trip_gsm_payload` for text in message_payload; `time_facts_*` discharge the
-time hypotheses); with optional parameters or a UDH it is tied by the correspondence +
-round-trip predicate (the model of their encoder and decoder is the one the driver runs).
+for submit_sm / deliver_sm it is proved for text in short_message (`sm_round_trip_short`, codec and time
+round trips as explicit facts; `sm_round_trip_gsm` with none left), for text in message_payload
+(`sm_round_trip_gsm_payload`) and WITH ANY LIST OF CONFORMANT OPTIONAL PARAMETERS in either case
+(`sm_round_trip_params`, `sm_round_trip_payload_params`, `sm_round_trip_gsm_params`,
+`sm_round_trip_gsm_payload_params`: induction through the TLV loop, the normalisations stated by `normal`);
+`time_facts_*` discharge the time hypotheses; a UDH (concatenation header inside the text) and codecs other
+than GSM 03.38 stay behind the explicit codec facts / the correspondence + round-trip predicate.
 -/
 import SmppVerif.Lemmas.Pdu
 import SmppVerif.Lemmas.BindRound
 import SmppVerif.Lemmas.SmRead
+import SmppVerif.Lemmas.TlvRound
 
 namespace SmppVerif.Props.C03
 open SmppVerif SmppVerif.Pdu SmppVerif.Lemmas.Pdu
@@ -133,6 +136,91 @@ theorem time_facts_rel (t : Time.TimeDelta) (h : Lemmas.Time.WFrel t) :
     ∃ ts, Time.toSmpp (.rel t) = .ok ts ∧ Lemmas.PduRead.CStrOK ts ∧ Time.fromSmpp ts = .ok (.rel { t with micros := 0 }) :=
   Lemmas.SmRead.time_facts_rel t h
 
+/-! ### optional parameters -/
+
+open Lemmas.TlvRound in
+/-- Round trip WITH optional parameters, text in short_message: every list of parameters SMPP 3.4 allows
+    (`TlvOK`: two-octet tag other than message_payload, value of the tag's type and width) comes back in the order
+    given, normalised as documented (`normal`: an unset flag is absent, a bool held for an integer parameter is 0 / 1);
+    the SAR parameters are withheld while the UDH indicator is set (`smParams`).  Codec and time facts as in
+    `sm_round_trip_short`. -/
+theorem sm_round_trip_params (dflt : Enc) (deliver : Bool) (m : Sm) (w : SmRTP m) (bytes : List Nat)
+    (e : Option Enc) (sm ts tv text : List Nat) (enc' : Option Enc) (encD : Enc) (dc : Nat)
+    (schedT validT : Time.TimeObj)
+    (hp : pdu dflt (if deliver then Msg.deliverSm m else Msg.submitSm m) = .ok (bytes, e))
+    (htp : smTextPart dflt m = .ok (sm, [], enc')) (hdcv : smDataCoding enc' = .ok dc) (hdc : dc < 256)
+    (hsm : sm.length < 256)
+    (hts : Time.toSmpp m.schedule = .ok ts) (htv : Time.toSmpp m.validity = .ok tv)
+    (hcs : Lemmas.PduRead.CStrOK ts ∧ Lemmas.PduRead.CStrOK tv)
+    (hfs : Time.fromSmpp ts = .ok schedT) (hfv : Time.fromSmpp tv = .ok validT)
+    (henc : (if dc = 0 then Except.ok dflt else encOfDataCoding dc) = .ok encD)
+    (hdm : decodeMessage m.esmClass.toNat (decodeCodec encD) sm = .ok (text, []))
+    (htext : text ≠ []) (hst : enumHas Gen.Enums.smppCommandStatus m.status = true) :
+    decode bytes dflt = .ok (if deliver then Msg.deliverSm (readBackP m text schedT validT encD)
+                             else Msg.submitSm (readBackP m text schedT validT encD)) :=
+  sm_round_trip_short_params dflt deliver m w bytes e sm ts tv text enc' encD dc schedT validT
+    hp htp hdcv hdc hsm hts htv hcs hfs hfv henc hdm htext hst
+
+open Lemmas.TlvRound in
+/-- … and with the text in message_payload: the payload parameter first, the others after it. -/
+theorem sm_round_trip_payload_params (dflt : Enc) (deliver : Bool) (m : Sm) (w : SmRTP m) (bytes : List Nat)
+    (e : Option Enc) (pbytes ts tv text : List Nat) (enc' : Option Enc) (encD : Enc) (dc : Nat)
+    (schedT validT : Time.TimeObj)
+    (hp : pdu dflt (if deliver then Msg.deliverSm m else Msg.submitSm m) = .ok (bytes, e))
+    (htp : smTextPart dflt m = .ok ([], Gen.Tlv.messagePayload / 256 % 256 :: Gen.Tlv.messagePayload % 256 ::
+      pbytes.length / 256 % 256 :: pbytes.length % 256 :: pbytes, enc'))
+    (hdcv : smDataCoding enc' = .ok dc) (hdc : dc < 256) (hpl : pbytes.length < 65536)
+    (hts : Time.toSmpp m.schedule = .ok ts) (htv : Time.toSmpp m.validity = .ok tv)
+    (hcs : Lemmas.PduRead.CStrOK ts ∧ Lemmas.PduRead.CStrOK tv)
+    (hfs : Time.fromSmpp ts = .ok schedT) (hfv : Time.fromSmpp tv = .ok validT)
+    (henc : (if dc = 0 then Except.ok dflt else encOfDataCoding dc) = .ok encD)
+    (hdm0 : decodeMessage m.esmClass.toNat (decodeCodec encD) [] = .ok ([], []))
+    (hdm : decodeMessage m.esmClass.toNat (decodeCodec encD) pbytes = .ok (text, []))
+    (htext : text ≠ []) (hst : enumHas Gen.Enums.smppCommandStatus m.status = true) :
+    decode bytes dflt = .ok (if deliver then Msg.deliverSm (readBackPP m text schedT validT encD)
+                             else Msg.submitSm (readBackPP m text schedT validT encD)) :=
+  Lemmas.TlvRound.sm_round_trip_payload_params dflt deliver m w bytes e pbytes ts tv text enc' encD dc schedT validT
+    hp htp hdcv hdc hpl hts htv hcs hfs hfv henc hdm0 hdm htext hst
+
+open Lemmas.TlvRound in
+/-- … with no hypothesis about codecs left (default alphabet GSM 03.38, automatic encoding). -/
+theorem sm_round_trip_gsm_params (deliver : Bool) (m : Sm) (w : SmRTP m) (bytes : List Nat) (e : Option Enc)
+    (hp : pdu encGsm (if deliver then Msg.deliverSm m else Msg.submitSm m) = .ok (bytes, e))
+    (henc : m.encoding = none) (hpre : m.encoded = []) (hpay : m.messagePayload = [])
+    (heh : m.errorHandling = .mode .strict)
+    (htext : Gsm.isGsmText m.shortMessage = true) (hne : m.shortMessage ≠ [])
+    (hlen : ∀ b, Gsm.encode .strict m.shortMessage = .ok b → b.length ≤ 254)
+    (hudhi : m.esmClass.toNat % 128 < 64)
+    (htime : m.schedule = .none ∧ m.validity = .none)
+    (hst : enumHas Gen.Enums.smppCommandStatus m.status = true) :
+    decode bytes encGsm = .ok (if deliver then Msg.deliverSm (readBackP m m.shortMessage .none .none encGsm)
+                               else Msg.submitSm (readBackP m m.shortMessage .none .none encGsm)) :=
+  Lemmas.TlvRound.sm_round_trip_gsm_params deliver m w bytes e hp henc hpre hpay heh htext hne hlen hudhi htime hst
+
+open Lemmas.TlvRound in
+theorem sm_round_trip_gsm_payload_params (deliver : Bool) (m : Sm) (w : SmRTP m) (bytes : List Nat) (e : Option Enc)
+    (hp : pdu encGsm (if deliver then Msg.deliverSm m else Msg.submitSm m) = .ok (bytes, e))
+    (henc : m.encoding = none) (hpre : m.encoded = []) (hshort : m.shortMessage = [])
+    (heh : m.errorHandling = .mode .strict)
+    (htext : Gsm.isGsmText m.messagePayload = true) (hne : m.messagePayload ≠ [])
+    (hlen : ∀ b, Gsm.encode .strict m.messagePayload = .ok b → b.length < 65536)
+    (hudhi : m.esmClass.toNat % 128 < 64)
+    (htime : m.schedule = .none ∧ m.validity = .none)
+    (hst : enumHas Gen.Enums.smppCommandStatus m.status = true) :
+    decode bytes encGsm = .ok (if deliver then Msg.deliverSm (readBackPP m m.messagePayload .none .none encGsm)
+                               else Msg.submitSm (readBackPP m m.messagePayload .none .none encGsm)) :=
+  Lemmas.TlvRound.sm_round_trip_gsm_payload_params deliver m w bytes e hp henc hpre hshort heh htext hne hlen hudhi htime hst
+
+/-- Non-vacuity of `TlvOK` and of the normalisation: an integer, a NUL-terminated string, an octet string and a set flag
+    are conformant and read back as themselves; an unset flag is conformant and disappears; a bool held for an
+    integer parameter reads back as 1. -/
+example : (Lemmas.TlvRound.TlvOK ⟨0x0204, .int 513⟩ ∧ Lemmas.TlvRound.TlvOK ⟨0x001D, .str [104, 105]⟩ ∧
+    Lemmas.TlvRound.TlvOK ⟨0x001E, .str [49, 50]⟩ ∧ Lemmas.TlvRound.TlvOK ⟨0x130C, .bool true⟩ ∧
+    Lemmas.TlvRound.TlvOK ⟨0x130C, .bool false⟩ ∧ Lemmas.TlvRound.TlvOK ⟨0x0005, .bool true⟩) ∧
+    [⟨0x0204, .int 513⟩, ⟨0x001D, .str [104, 105]⟩, ⟨0x130C, .bool false⟩, ⟨0x130C, .bool true⟩, ⟨0x0005, .bool true⟩].filterMap
+      Lemmas.TlvRound.normal =
+    [⟨0x0204, .int 513⟩, ⟨0x001D, .str [104, 105]⟩, ⟨0x130C, .bool true⟩, ⟨0x0005, .int 1⟩] := by decide +kernel
+
 /-- Non-vacuity: a submit_sm_resp with a 3-character id, and a short GSM submit_sm whose PDU
     decodes to itself (kernel evaluation of the SubmitSm encoder and decoder of the model). -/
 example : pdu encGsm (.submitSmResp { seq := 7, status := 0, messageId := [97, 98, 99] })
@@ -156,3 +244,7 @@ end SmppVerif.Props.C03
 #print axioms SmppVerif.Props.C03.sm_round_trip_gsm_payload
 #print axioms SmppVerif.Props.C03.time_facts_abs
 #print axioms SmppVerif.Props.C03.time_facts_rel
+#print axioms SmppVerif.Props.C03.sm_round_trip_params
+#print axioms SmppVerif.Props.C03.sm_round_trip_payload_params
+#print axioms SmppVerif.Props.C03.sm_round_trip_gsm_params
+#print axioms SmppVerif.Props.C03.sm_round_trip_gsm_payload_params
